@@ -1633,7 +1633,41 @@ func (c *Ctx) twinArms(rule string, funcs []*FuncInfo, method string, clause str
 				return true
 			}
 			eb, isBlk := is.Else.(*ast.BlockStmt)
-			if !isBlk || len(is.Body.List) != 1 || len(eb.List) != 1 {
+			if !isBlk {
+				return true
+			}
+			// one arm names a node and the other does nothing of the kind: the node stays unnamed on that arm
+			strip := func(list []ast.Stmt) []ast.Stmt {
+				var out []ast.Stmt
+				for _, st := range list {
+					if b, isB := st.(*ast.BlockStmt); isB && len(b.List) == 0 {
+						continue
+					}
+					if _, isE := st.(*ast.EmptyStmt); isE {
+						continue
+					}
+					out = append(out, st)
+				}
+				return out
+			}
+			thenL, elseL := strip(is.Body.List), strip(eb.List)
+			if len(thenL) <= 1 && len(elseL) <= 1 && len(thenL)+len(elseL) == 1 {
+				only := thenL
+				if len(only) == 0 {
+					only = elseL
+				}
+				if es, isEs := only[0].(*ast.ExprStmt); isEs {
+					if call, isCall := es.X.(*ast.CallExpr); isCall {
+						if sel, isSel := unparen(call.Fun).(*ast.SelectorExpr); isSel && sel.Sel.Name == method {
+							n++
+							per++
+							c.Violation(rule, fmt.Sprintf("%s/%s#%d", funcName(fi.Obj), method, per), is.Pos(), fmt.Sprintf("one arm of this choice calls %s on `%s` and the other arm is empty: the node stays unnamed whenever that arm is taken", method, c.src(sel.X))).Clause = clause
+						}
+					}
+				}
+				return true
+			}
+			if len(is.Body.List) != 1 || len(eb.List) != 1 {
 				return true
 			}
 			recv := func(s ast.Stmt) ast.Expr {
